@@ -154,6 +154,30 @@ func Draw(t *rapid.T, mode Mode, pkg string) Result {
 		if i > 0 && rapid.IntRange(0, 4).Draw(t, "nest") == 0 {
 			p.parent = rapid.IntRange(0, i-1).Draw(t, "nestin")
 			g.cls("nested-message")
+			if rapid.Bool().Draw(t, "nestchain") && g.msgs[i-1].parent >= 0 {
+				// deeper: inside the previous nested message
+				p.parent = i - 1
+			}
+			if g.msgs[p.parent].parent >= 0 {
+				g.cls("nested-depth>=3")
+			}
+			// simple names recur under different parents (Req.Filter.Range,
+			// Res.Filter.Range): only siblings must differ
+			if rapid.Bool().Draw(t, "nestname") {
+				taken := map[string]bool{}
+				for _, q := range g.msgs {
+					if q.parent == p.parent {
+						taken[q.name] = true
+					}
+				}
+				for _, cand := range rapid.Permutation([]string{"Filter", "Range", "Item", "Inner"}).Draw(t, "nestnames") {
+					if !taken[cand] && cand != g.msgs[p.parent].name {
+						p.name = cand
+						g.cls("nested-name-reused")
+						break
+					}
+				}
+			}
 		}
 		shapes := []string{"object", "object", "object", "object", "wrapper-flag", "wrapper-opt", "wrapper-implicit"}
 		p.shape = rapid.SampledFrom(shapes).Draw(t, "shape")
@@ -161,6 +185,37 @@ func Draw(t *rapid.T, mode Mode, pkg string) Result {
 			p.shape = "object" // the root is always an object with many fields
 		}
 		g.msgs = append(g.msgs, p)
+	}
+	// the same two trailing name components under different outer messages:
+	// A.Filter.Range and B.Filter.Range are different types
+	var tops []int
+	for i, p := range g.msgs {
+		if p.parent == -1 {
+			tops = append(tops, i)
+		}
+	}
+	if len(tops) >= 2 && rapid.IntRange(0, 4).Draw(t, "twinchains") == 0 {
+		for _, top := range tops[:2] {
+			mid := &msgPlan{name: "Filter", parent: top, index: len(g.msgs), clientNm: map[string]bool{}, shape: "object"}
+			for _, q := range g.msgs {
+				if q.parent == top && q.name == "Filter" {
+					mid = q
+				}
+			}
+			if mid.index == len(g.msgs) {
+				g.msgs = append(g.msgs, mid)
+			}
+			dup := false
+			for _, q := range g.msgs {
+				if q.parent == mid.index && q.name == "Range" {
+					dup = true
+				}
+			}
+			if !dup {
+				g.msgs = append(g.msgs, &msgPlan{name: "Range", parent: mid.index, index: len(g.msgs), clientNm: map[string]bool{}, shape: "object"})
+			}
+		}
+		g.cls("nested-twin-chains")
 	}
 	for _, p := range g.msgs {
 		p.full = g.fullName(p)
